@@ -84,7 +84,11 @@ BookPower(o) == /\ Close(o.ebPower, o.qPins + o.qCool + o.qRefl, TolBook)
 BookWall(o) == Close(o.ebDuct, o.wallIn, TolBook + (IF o.cls = "lag" THEN o.lagB ELSE 0))
 Adiabatic(o) == o.adia = 0 \/ o.ductOut = 0
 \* running totals advance by the step's terms (each rounded once)
-Advance(old, new, inc) == Close((new - old) * R, inc, R + 2)
+\* (an increment beyond 2^24 sweep quanta cannot equal any step-quantum
+\* figure, which stays below 2^30: decided without forming the product)
+Advance(old, new, inc) ==
+  LET d == new - old IN
+  IF d > 16000000 \/ d < -16000000 THEN FALSE ELSE Close(d * R, inc, R + 2)
 LedgerStep(o) == /\ Advance(H[o.a], o.HTot, o.dH)
                  /\ Advance(Q[o.a], o.QTot, o.qPins + o.qCool + o.qRefl)
                  /\ Advance(G[o.a], o.GTot, o.qDuct)
